@@ -18,7 +18,10 @@ def specs(tier):
     from . import templates as t
 
     tpl = [*[x for x in t.combinator_templates(3 if tier == "quick" else 5) if "Sequence" in x.label], *t.loop_templates(), *t.rule_templates(), *t.trivia_templates()]
-    return [ops.SequenceSpec(), ops.RepeatSpec(), ops.RepeatOnceSpec(), *ops.bounded_repeat_specs(), *g.rules(), *g.trivia(), *tpl]
+    from . import c02
+
+    # the fused SKIP rule must be silent AND atomic, and the skip rewrite may only fire where no trivia can match
+    return [ops.SequenceSpec(), ops.RepeatSpec(), ops.RepeatOnceSpec(), *ops.bounded_repeat_specs(), *g.rules(), *g.trivia(), *tpl, c02.SkipRuleArms(), c02.SkipArms()]
 
 from .groups import concretise_ops
 concretise = concretise_ops(PROPERTY)
